@@ -22,10 +22,52 @@ VERIF = os.path.dirname(os.path.dirname(os.path.abspath(__file__)))
 REPO = "/repo"
 
 
+def cp(src, dst):
+    """copy a file or a directory tree (a demonstration may be a small crate)"""
+    if os.path.isdir(src):
+        shutil.copytree(src, dst if not os.path.isdir(dst) else os.path.join(dst, os.path.basename(src)), dirs_exist_ok=True,
+                        ignore=shutil.ignore_patterns("target"))
+    else:
+        shutil.copy(src, dst)
+
+
 def sh(cmd, cwd=None, timeout=3600):
     p = subprocess.run(cmd, cwd=cwd, shell=True, stdout=subprocess.PIPE, stderr=subprocess.STDOUT, timeout=timeout,
                        env=dict(os.environ, CARGO_NET_OFFLINE="true"))
     return p.returncode, p.stdout.decode("utf-8", "replace")
+
+
+def check_isolated(checks, props, patch, sid, key_broken=False):
+    """Same as check_in_place without touching the shared /repo (other work may be reading it): a private mount
+    namespace in which a patched copy of the repository is bind-mounted over /repo, and a private copy of
+    /verif (or of $SEED_VSRC, an older state of it) with its build caches to run the checks in."""
+    rcopy = "/tmp/seedrepo_%s_%d" % (sid, os.getpid())
+    vsrc = os.environ.get("SEED_VSRC", VERIF)
+    vcopy = os.environ.get("SEED_VCOPY", "/tmp/vseed")
+    sh("rm -rf %s && mkdir -p %s && rsync -a --exclude target %s/ %s/" % (rcopy, rcopy, REPO, rcopy))
+    rc, o = sh("git apply %s" % patch, cwd=rcopy)
+    assert rc == 0, o
+    sh("mkdir -p %s && rsync -a --delete --exclude replays %s/ %s/ && mkdir -p %s/replays" % (vcopy, vsrc, vcopy, vcopy))
+    try:
+        for pid in props:
+            t0 = time.time()
+            rc, o = sh("unshare --mount sh -c 'mount --bind %s /repo && cd %s && ./check %s --tier quick'" % (rcopy, vcopy, pid), timeout=3600)
+            viol = [l for l in o.split("\n") if l.startswith("VIOLATION")]
+            checks[pid] = {"exit": rc, "violation_lines": viol, "tail": o[-700:], "wall_s": round(time.time() - t0, 1),
+                           "detected": rc == 1 and bool(viol), "with_failing_input": bool(viol) and "no-failing-input-found" not in viol[0],
+                           "broken": [l.strip() for l in o.split("\n") if l.strip().startswith("broken:")],
+                           "how": "patched copy of /repo bind-mounted over /repo in a private mount namespace; checks run in a copy of /verif"
+                                  + (" as of " + sh("git -C %s rev-parse --short HEAD" % vsrc)[1].strip() if vsrc != VERIF else "")}
+            for l in viol:
+                rel = l.split("replay=")[1].split()[0]
+                src = os.path.join(vcopy, rel)
+                if os.path.exists(src):
+                    d = os.path.join(VERIF, "seeded", sid)
+                    os.makedirs(d, exist_ok=True)
+                    shutil.copy(src, os.path.join(d, "replay_%s.json" % pid))
+                    os.remove(src)
+    finally:
+        sh("rm -rf %s" % rcopy)
 
 
 def check_in_place(out, props, patch, sid):
@@ -80,9 +122,11 @@ def main():
         for f in demos:
             rc, o = sh("cd %s && git ls-files --others --exclude-standard | grep -F '%s' | head -1" % (src_wt, f))
             rel = o.strip().split("\n")[0] if o.strip() else None
+            if rel and os.path.isdir(os.path.join(mdir, f)):
+                rel = rel[:rel.index(f) + len(f)]       # the directory itself, not a file inside it
             if rel:
                 os.makedirs(os.path.dirname(os.path.join(wt, rel)), exist_ok=True)
-                shutil.copy(os.path.join(mdir, f), os.path.join(wt, rel))
+                cp(os.path.join(mdir, f), os.path.join(wt, rel))
                 placed.append(rel)
         out["confirmation"]["demo_files"] = placed
         rc1, o1 = sh(demo_cmd, cwd=wt)
@@ -96,40 +140,14 @@ def main():
     confirmed = all(out["confirmation"].get(k) for k in ("patch_applies", "suite_passes_with_patch", "demo_fails_with_patch", "demo_passes_without_patch"))
     out["confirmed"] = confirmed
     if os.environ.get("SEED_ISOLATED"):
-        # Same thing without touching the shared /repo (other work may be reading it): a private mount
-        # namespace in which a patched copy of the repository is bind-mounted over /repo, and a private
-        # copy of /verif (with its build caches) to run the checks in.
-        rcopy = "/tmp/seedrepo_%s_%d" % (sid, os.getpid())
-        vcopy = os.environ.get("SEED_VCOPY", "/tmp/vseed")
-        sh("rm -rf %s && mkdir -p %s && rsync -a --exclude target %s/ %s/" % (rcopy, rcopy, REPO, rcopy))
-        rc, o = sh("git apply %s" % patch, cwd=rcopy)
-        assert rc == 0, o
-        sh("mkdir -p %s && rsync -a --delete --exclude replays %s/ %s/ && mkdir -p %s/replays" % (vcopy, VERIF, vcopy, vcopy))
-        try:
-            for pid in props:
-                t0 = time.time()
-                rc, o = sh("unshare --mount sh -c 'mount --bind %s /repo && cd %s && ./check %s --tier quick'" % (rcopy, vcopy, pid), timeout=3600)
-                viol = [l for l in o.split("\n") if l.startswith("VIOLATION")]
-                out["checks"][pid] = {"exit": rc, "violation_lines": viol, "tail": o[-700:], "wall_s": round(time.time() - t0, 1),
-                                      "detected": rc == 1 and bool(viol), "with_failing_input": bool(viol) and "no-failing-input-found" not in viol[0],
-                                      "how": "patched copy of /repo bind-mounted over /repo in a private mount namespace; checks run in a copy of /verif"}
-                for l in viol:
-                    rel = l.split("replay=")[1].split()[0]
-                    src = os.path.join(vcopy, rel)
-                    if os.path.exists(src):
-                        d = os.path.join(VERIF, "seeded", sid)
-                        os.makedirs(d, exist_ok=True)
-                        shutil.copy(src, os.path.join(d, "replay_%s.json" % pid))
-                        os.remove(src)
-        finally:
-            sh("rm -rf %s" % rcopy)
+        check_isolated(out["checks"], props, patch, sid)
     else:
         check_in_place(out, props, patch, sid)
     d = os.path.join(VERIF, "seeded", sid)
     os.makedirs(d, exist_ok=True)
     for f in os.listdir(mdir):
         if f != "TASK.txt":
-            shutil.copy(os.path.join(mdir, f), os.path.join(d, f))
+            cp(os.path.join(mdir, f), os.path.join(d, f))
     meta2 = dict(meta)
     meta2["confirmed_by_me"] = out["confirmation"]
     meta2["confirmed"] = confirmed
